@@ -31,6 +31,11 @@ def cases(seed, tier, broken=()):
     for i in range({"quick": 6, "thorough": 60, "search": 24}[tier]):
         out.append({"kind": "missing_roundtrip", "container": ["DA", "DS", "LIST"][i % 3], "index": ["dims", "multi"][(i // 3) % 2],
                     "order": i % 3, "n_missing": 1 + i % 2, "mseed": int(rng.integers(0, 2**31))})
+    # long lists (more than ten items, so that item numbers no longer sort like strings) whose items carry DIFFERENT feature coordinates,
+    # through a model whose preprocessor is rebuilt (deferred fit + compute(), serialize/deserialize): every item keeps its own labels
+    for i in range({"quick": 4, "thorough": 24, "search": 12}[tier]):
+        out.append({"kind": "long_list_rebuilt", "container": "LIST", "n_items": [11, 13, 12, 14][i % 4], "route": ["compute", "serialize"][i % 2],
+                    "mseed": int(rng.integers(0, 2**31))})
     if tier == "thorough":
         for L in layouts.enumerate_layouts():
             L["kind"] = "roundtrip"
@@ -42,6 +47,8 @@ def cases(seed, tier, broken=()):
 def nontrivial_key(case, info):
     if case["kind"] == "missing_roundtrip":
         return ("missing", case["container"], case["index"], case["order"], case["n_missing"], case["mseed"])
+    if case["kind"] == "long_list_rebuilt":
+        return ("long_list", case["n_items"], case["route"], case["mseed"])
     if case["kind"] == "coslat_roundtrip":
         return ("coslat", case["container"], case["latname"], tuple(case["lats"]), case["center"])
     return (case["container"], tuple(case["sd"]), tuple(case["fd"]), tuple(case["perm"]), tuple(sorted(case["kinds"].items())), case["names"],
@@ -193,9 +200,69 @@ def run_missing(case):
     return {"findings": F, "info": info}
 
 
+def run_long_list(case):
+    F = []
+    rng = np.random.default_rng(case["mseed"])
+    n = 20
+    items = []
+    for j in range(case["n_items"]):
+        p = int(rng.integers(2, 5))
+        xs = (np.arange(p) * (j + 1.0) + 10.0 * j)
+        if j % 3 == 1:
+            xs = xs[::-1]  # descending: the same labels in another order must not matter either
+        if j % 4 == 2:
+            xs = np.arange(p) * 1.0  # several items share labels
+        items.append(xr.DataArray(rng.normal(size=(n, p)) + 100.0 * j, dims=("time", "x"), coords={"time": np.arange(n), "x": xs}, name=f"v{j}"))
+    cc = f"LIST{case['n_items']}|{case['route']}"
+    ref = xe.single.EOF(n_modes=3, solver="full").fit(items, "time")
+    if case["route"] == "compute":
+        m = xe.single.EOF(n_modes=3, solver="full", compute=False).fit(items, "time")
+        m.compute()
+    else:
+        m = xe.single.EOF.deserialize(ref.serialize())
+    checks = 0
+    try:
+        triples = (("components", ref.components(), m.components()), ("reconstruction", ref.inverse_transform(ref.scores()), m.inverse_transform(m.scores())),
+                   ("transform", [ref.transform(items)], [m.transform(items)]))
+    except Exception as e:  # noqa: BLE001  the eager model answers (it was asked first); a rebuilt one that raises has lost the structure
+        F.append(Finding("oracle", "roundtrip_data", cc + "|raises", f"the model whose preprocessor was rebuilt ({case['route']}) raised {type(e).__name__}: {str(e)[:140]}"))
+        return {"findings": F, "info": {"dist": {"container": f"LIST{case['n_items']}", "route": case["route"]}}}
+    for what, a, b in triples:
+        if len(a) != len(b):
+            F.append(Finding("oracle", "roundtrip_data", cc + "|" + what, f"{what}: {len(b)} items instead of {len(a)}"))
+            continue
+        for j, (u, v) in enumerate(zip(a, b)):
+            checks += 1
+            sc = float(np.nanmax(np.abs(np.asarray(u.values)))) if u.size else 1.0
+            r = compare_labelled(u, v, rtol=1e-8, atol=1e-8 * max(sc, 1e-300))
+            if r:
+                F.append(Finding("oracle", "roundtrip_data", cc + "|" + what, f"{what} of item {j} after the preprocessor was rebuilt ({case['route']}): {r[:160]}"))
+                break
+    # and against the data itself: the full-rank reconstruction of the rebuilt model puts every value back on its own label
+    full = xe.single.EOF(n_modes=min(n - 1, sum(it.sizes["x"] for it in items)), solver="full", compute=(case["route"] != "compute")).fit(items, "time")
+    try:
+        if case["route"] == "compute":
+            full.compute()
+        else:
+            full = xe.single.EOF.deserialize(full.serialize())
+        rec = full.inverse_transform(full.scores())
+    except Exception as e:  # noqa: BLE001
+        F.append(Finding("oracle", "roundtrip_data", cc + "|raises", f"full-rank model rebuilt via {case['route']} raised {type(e).__name__}: {str(e)[:140]}"))
+        return {"findings": F, "info": {"dist": {"container": f"LIST{case['n_items']}", "route": case["route"]}}}
+    for j, (u, v) in enumerate(zip(items, rec)):
+        checks += 1
+        r = compare_labelled(u, v, rtol=1e-6, atol=1e-6 * 100.0 * (j + 1))
+        if r:
+            F.append(Finding("oracle", "roundtrip_data", cc + "|data", f"item {j}: full reconstruction of the rebuilt model differs from the data at its labels: {r[:160]}"))
+            break
+    return {"findings": F, "info": {"oracle_checks": {"n": checks}, "dist": {"container": f"LIST{case['n_items']}", "route": case["route"]}}}
+
+
 def run(case):
     from xeofs.preprocessing.preprocessor import Preprocessor
 
+    if case["kind"] == "long_list_rebuilt":
+        return run_long_list(case)
     if case["kind"] == "coslat_roundtrip":
         return run_coslat(case)
     if case["kind"] == "missing_roundtrip":
